@@ -54,14 +54,16 @@ type Server struct {
 	// KeepRaw stores the wire bytes of every query in the log.
 	KeepRaw bool
 
-	mu      sync.Mutex
-	log     []*QueryLog
-	serial  atomic.Uint32
-	connSeq atomic.Int64
-	closers []func()
-	connEnd map[int64]int64 // stream connection id -> clock.Now() when its read side ended (peer closed / error)
-	wg      sync.WaitGroup
-	closed  atomic.Bool
+	mu       sync.Mutex
+	log      []*QueryLog
+	serial   atomic.Uint32
+	connSeq  atomic.Int64
+	closers  []func()
+	connEnd  map[int64]int64 // stream connection id -> clock.Now() when its read side ended (peer closed / error)
+	open     atomic.Int64    // transport connections currently open (stream, http, quic)
+	accepted atomic.Int64
+	wg       sync.WaitGroup
+	closed   atomic.Bool
 
 	Addr map[string]string // transport -> host:port
 }
@@ -69,6 +71,13 @@ type Server struct {
 func NewServer(tag string) *Server {
 	return &Server{Tag: tag, Addr: map[string]string{}}
 }
+
+// OpenConns returns the number of transport-level connections (TCP/TLS streams, HTTP
+// connections, QUIC connections) the peer currently holds open to this server.
+func (s *Server) OpenConns() int64 { return s.open.Load() }
+
+// AcceptedConns returns how many connections were accepted so far.
+func (s *Server) AcceptedConns() int64 { return s.accepted.Load() }
 
 // ConnEndedAt returns when the peer closed stream connection id (0 = still open / unknown).
 func (s *Server) ConnEndedAt(id int64) int64 {
@@ -291,6 +300,9 @@ func (s *Server) listenStream(transport, addr string, cfg *tls.Config) error {
 }
 
 func (s *Server) serveStream(transport string, raw net.Conn, cfg *tls.Config) {
+	s.open.Add(1)
+	s.accepted.Add(1)
+	defer s.open.Add(-1)
 	defer raw.Close()
 	var c net.Conn = raw
 	if cfg != nil {
@@ -424,13 +436,23 @@ func (s *Server) httpHandler(transport string) http.Handler {
 	})
 }
 
+func (s *Server) connState(c net.Conn, st http.ConnState) {
+	switch st {
+	case http.StateNew:
+		s.open.Add(1)
+		s.accepted.Add(1)
+	case http.StateClosed, http.StateHijacked:
+		s.open.Add(-1)
+	}
+}
+
 func (s *Server) ListenHTTP(addr string) error {
 	l, err := net.Listen("tcp", addr)
 	if err != nil {
 		return err
 	}
 	s.Addr["http"] = l.Addr().String()
-	hs := &http.Server{Handler: s.httpHandler("http")}
+	hs := &http.Server{Handler: s.httpHandler("http"), ConnState: s.connState}
 	s.addCloser(func() { hs.Close() })
 	go hs.Serve(l)
 	return nil
@@ -444,7 +466,7 @@ func (s *Server) ListenHTTPS(addr string, cfg *tls.Config) error {
 	s.Addr["https"] = l.Addr().String()
 	cfg = cfg.Clone()
 	cfg.NextProtos = []string{"h2", "http/1.1"}
-	hs := &http.Server{Handler: s.httpHandler("https"), TLSConfig: cfg}
+	hs := &http.Server{Handler: s.httpHandler("https"), TLSConfig: cfg, ConnState: s.connState}
 	s.addCloser(func() { hs.Close() })
 	go hs.ServeTLS(l, "", "")
 	return nil
@@ -486,7 +508,10 @@ func (s *Server) ListenQUIC(addr string, cfg *tls.Config) error {
 				return
 			}
 			id := s.connSeq.Add(1)
+			s.open.Add(1)
+			s.accepted.Add(1)
 			go func() {
+				defer s.open.Add(-1)
 				for {
 					st, err := c.AcceptStream(context.Background())
 					if err != nil {
